@@ -592,7 +592,7 @@ func finish(c *Ctx, pd *propDef) int {
 		}
 	}
 	trusted := append([]string{}, c.Trusted...)
-	trusted = append(trusted, "go/packages + go/ssa (x/tools v0.50.0) and the slipvc SSA->SMT translation", "z3 5.1.0 / z3 4.8.12 / cvc5 1.0 (an unsat from any one is believed)", "partial correctness only (termination not proved)", "machine integers = ranged SMT Int with explicit two's-complement wrap")
+	trusted = append(trusted, "go/packages + go/ssa (x/tools v0.50.0) and the slipvc SSA->SMT translation", "z3 5.1.0 / z3 4.8.12 / cvc5 1.0 (an unsat from any one is believed)", "partial correctness only (termination not proved)", "machine integers = ranged SMT Int with explicit two's-complement wrap", "slice offset + capacity <= 2^48 (the largest allocation of the Go runtime on 64-bit platforms), string length <= 2^40")
 	cov := map[string]any{
 		"obligations": total, "discharged": discharged, "obligations_generated": generated,
 		"checker_cmd":   fmt.Sprintf("bin/slipvc check -prop %s -tier %s", c.Prop, c.Tier),
